@@ -7,7 +7,9 @@ S->C: Convolution.tla enumerates (frame, odd kernel shape, kernel variant, mask 
       through the real Convolver / Kernel2D / SimulatorImaging / Imaging API: the implementation's operator is extracted
       on basis images (one per unmasked and per blurring pixel), mapping matrices (basis, fractional, dense, signed) are
       blurred, a dense signed image with junk outside mask + blurring region is blurred, whole-frame convolution and
-      simulate -> mask -> fit are run.
+      simulate -> mask -> fit are run -- for 4 of 5 instances with a kernel OBJECT that has a history (derived by
+      2.0 * base, -base, base + ndarray or item assignment from a base kernel that was already used in whole-frame
+      convolutions and in a simulation), and compared with Convolver(mask, that same object).
 C->S: every abstracted result (floats / known power-of-two scale -> integers, off-lattice values rejected) is judged by
       Trace_Convolution.tla; the same for seeded random larger masks (holes, several components) with signed non-square
       kernels up to 7x7.
@@ -518,6 +520,7 @@ def run(ctx):
         "simulate->fit uses non-negative images and kernels (the simulator draws Poisson deviates from the image even with "
         "noise off) whose entries sum to a power of two, so both normalisations are exact",
         "Kernel2D.convolved_array_from is judged on unmasked input arrays (its use in the simulator)",
+        "kernel histories: the judged kernel's values are asserted (gamma) to be exactly the intended ones before it is used",
     ]
 
 
